@@ -72,6 +72,14 @@ Theorem template_frame : forall rho t S,
 Proof. exact TemplProofs.template_frame. Qed.
 Print Assumptions template_frame.
 
+(* freshness (the value model has no identities, so it is stated on the code): the generated
+   code pushes no literal list, array or hash -- every container of the result is rebuilt by
+   Squash / Vectorize / Hashize on every evaluation, or is the value of an unquoted expression *)
+Theorem template_fresh : forall t,
+    wf t = true -> forallb push_plain (gen_sq (reify t)) = true.
+Proof. exact TemplProofs.template_fresh. Qed.
+Print Assumptions template_fresh.
+
 (* outside the property (a splice that is not inside a container): all elements are left *)
 Theorem bare_splice_pushes_all : forall rho e S,
     run rho (gen_sq (reify (TSpl e))) S =
